@@ -19,7 +19,7 @@ Definition emission_guard_of_code : bool :=
   (guard_SaveEmission =? 1) && (set_emission_raises_dirtyE =? 1) && (save_emission_clears_dirtyE =? 1).
 
 Definition code_shape_ok : bool :=
-  zl_eq commit_order [30; 40; 50; 1; 2; 3; 4; 5; 6; 7] &&
+  zl_eq commit_order [30; 40; 50; 8; 1; 2; 3; 4; 5; 6; 7; 9] &&   (* 8 / 9: AppDB.BeginCommit / EndCommit, the atomic batch of fix ba5358b *)
   (guard_SavePrice =? 2) && (guard_SaveVersions =? 3) && (guard_FlushValidators =? 4) &&
   (guard_SaveBlocksTime =? 0) && (set_price_raises_dirtyP =? 1) && (save_price_clears_dirtyP =? 0) &&
   (add_version_raises_dirtyV =? 1) && (save_versions_clears_dirtyV =? 1).
